@@ -1,7 +1,7 @@
 (* C03 -- Restart after a crash converges to the uninterrupted result.  Model: TaskFS + the sequential reference `result`. *)
 From Coq Require Import List Arith Lia Bool PeanoNat String.
 Import ListNotations.
-From SP Require Import Skel Gen Expected Result TaskFS TInv TPres Glue Cor TaskTop History.
+From SP Require Import Skel Gen Expected ExpectedCones Result TaskFS TInv TPres Glue Cor TaskTop History.
 
 Theorem C03_code_conforms :
   skel_eqb skel_Task_Execute exp_Task_Execute
@@ -67,6 +67,17 @@ Theorem C03_midfinalize_refuted :
   exists fR fR', result [t2] f_empty = Some fR /\ result [t2] f_half = Some fR' /\ fR 1 = Some 8 /\ fR' 1 = None.
 Proof. exact Result.C03_midfinalize_refuted. Qed.
 
+(* T1, call cones: every function of scipipe that the functions above can reach (calls and function values, interface calls
+   resolved to every implementation) is one the models were compared with -- a helper that is new to the cone, or a new call
+   of an old one, changes a list (the lists are regenerated from /repo on every run; ExpectedCones.v holds the accepted ones) *)
+Theorem C03_cone_conforms :
+  strs_eqb cone_Task_Execute exp_cone_Task_Execute
+  && strs_eqb cone_FinalizePaths exp_cone_FinalizePaths
+  && strs_eqb cone_Task_tempDirsExist exp_cone_Task_tempDirsExist
+  && strs_eqb cone_Task_anyOutputsExist exp_cone_Task_anyOutputsExist
+  && strs_eqb cone_Process_Run exp_cone_Process_Run = true.
+Proof. vm_compute. reflexivity. Qed.
+
 Print Assumptions C03_code_conforms.
 Print Assumptions C03_complete_is_result.
 Print Assumptions C03_converges.
@@ -75,3 +86,4 @@ Print Assumptions C03_any_history_run.
 Print Assumptions C03_no_reexecution.
 Print Assumptions C03_refuses_leftovers.
 Print Assumptions C03_midfinalize_refuted.
+Print Assumptions C03_cone_conforms.
